@@ -254,3 +254,10 @@ package deps
 //@ trusted func (q *timerqueue.Queue) Add(v interface{})
 //@   modifies ghost.tqadded
 //@   ensures tqadded == old(tqadded) + 1
+//@
+//@ # strings.Builder: only that the calls do not fail (C06 group strings)
+//@ trusted func (b *strings.Builder) WriteString(s string) (n int, err error)
+//@   modifies *b, alloc
+//@   ensures true
+//@ trusted func (b *strings.Builder) String() (s string)
+//@   ensures true
